@@ -119,6 +119,15 @@ func (e *Exec) paramEnv(st *State, old *State) *CEnv {
 		all := append([]*ssa.Parameter(nil), e.fn.Params...)
 		for i, p := range all {
 			if i < len(e.con.Params) {
+				if i == 0 && e.ifaceCon != nil {
+					// the receiver seen through the interface: only its dynamic type is known to the contract
+					ref := IntLit(1)
+					if ptr, ok := e.params[0].(*Ptr); ok && ptr.Ref != nil {
+						ref = ptr.Ref
+					}
+					env.vars[e.con.Params[0]] = CV{V: MkIface(IntLit(typeID(p.Type())), ref), T: e.ifaceCon}
+					continue
+				}
 				env.vars[e.con.Params[i]] = CV{V: e.params[i], T: p.Type()}
 			}
 		}
@@ -193,7 +202,7 @@ func (e *Exec) assumeInvariants(lp *Loop) {
 func (e *Exec) evalVariants(lp *Loop) []*Term {
 	var out []*Term
 	env := e.loopEnv(lp)
-	if lp.Spec != nil {
+	if lp.Spec != nil && len(lp.Spec.Decreases) > 0 {
 		for _, d := range lp.Spec.Decreases {
 			t, err := env.EvalTerm(d.E)
 			if err != nil {
@@ -431,6 +440,54 @@ func (e *Exec) loopCands(lp *Loop) []*Cand {
 				v64 := Resize(v, 64, signed)
 				return And(SGe(v64, BVLitI(-1, 64)), SLt(v64, l))
 			}})
+		}
+	}
+	// bounds taken from the header's exit test: phi <= B and phi >= B for a loop-invariant operand B
+	if iff, ok := h.Instrs[len(h.Instrs)-1].(*ssa.If); ok {
+		if bo, ok := iff.Cond.(*ssa.BinOp); ok && isInteger(bo.X.Type()) {
+			for _, opnd := range []ssa.Value{bo.X, bo.Y} {
+				opnd := opnd
+				if in, ok := opnd.(ssa.Instruction); ok && lp.Blocks[in.Block()] {
+					continue
+				}
+				for _, in := range h.Instrs {
+					phi, ok := in.(*ssa.Phi)
+					if !ok {
+						break
+					}
+					if !isInteger(phi.Type()) || sortOf(phi.Type()) != sortOf(opnd.Type()) {
+						continue
+					}
+					signed := isSigned(phi.Type())
+					for _, rel := range []string{"<=", ">="} {
+						rel := rel
+						cands = append(cands, &Cand{Key: key(phi.Name() + rel + "bound(" + opnd.Name() + ")"), Desc: phi.Comment + " " + rel + " loop bound " + opnd.Name(), Eval: func(e *Exec) *Term {
+							v, ok := e.regs[phi].(*Term)
+							if !ok {
+								return nil
+							}
+							var bt *Term
+							if c, isC := opnd.(*ssa.Const); isC {
+								bt, _ = e.constVal(c).(*Term)
+							} else if bv, ok := e.regs[opnd].(*Term); ok {
+								bt = bv
+							}
+							if bt == nil {
+								return nil
+							}
+							switch {
+							case rel == "<=" && signed:
+								return SLe(v, bt)
+							case rel == "<=":
+								return ULe(v, bt)
+							case signed:
+								return SGe(v, bt)
+							}
+							return UGe(v, bt)
+						}})
+					}
+				}
+			}
 		}
 	}
 	// slice-typed phis (e.g. accumulating appends): nothing inferred.
@@ -776,7 +833,11 @@ func (e *Exec) finish() {
 		e.vc.Oblige("ensures", name, "postcondition "+en.Text+" ("+en.Line+")", en.Line, e.g, t, e.root.inputs)
 	}
 	if e.con.HasFrame() {
-		e.checkFrame(env)
+		if tf, ok := e.con.Raw["trusted_frame"]; ok {
+			e.vc.Trusted["frame of "+e.con.Fn+" assumed, not proved ("+strings.Join(tf, "; ")+")"] = true
+		} else {
+			e.checkFrame(env)
+		}
 	}
 }
 
